@@ -453,3 +453,95 @@ def entry_constraint(env):
 def implies(f, g, constraints=None):
     """(f => g for every assignment?, counterexample)"""
     return B.equivalent(("or", ("not", f), g), ("const", True), constraints)
+
+
+# ------------------------------------------------------------------------------------------------ (c) private helpers
+def crate_calls(q, body_root):
+    """[(call node, callee body)] for every call in `body_root` of a function defined in the crate (free fn or method)."""
+    out = []
+    for n in H.walk(body_root):
+        if n.get("k") in ("call", "mcall"):
+            c = n.get("callee") or {}
+            b = q.by_key.get(c.get("inst_key") or c.get("key")) or q.by_key.get(c.get("key"))
+            if b is not None:
+                out.append((n, b))
+    return out
+
+
+def with_helpers(q, body, depth=2, skip=()):
+    """The function and the functions of the crate it calls (transitively up to `depth`): [(body, call node in the caller | None,
+    caller body | None)], the function itself first.  `skip`: keys not to enter."""
+    out, seen = [(body, None, None)], {body["key"]} | set(skip)
+    frontier = [body]
+    for _ in range(depth):
+        nxt = []
+        for b in frontier:
+            for call, cb in crate_calls(q, b["body"]):
+                if cb["key"] in seen:
+                    continue
+                seen.add(cb["key"])
+                out.append((cb, call, b))
+                nxt.append(cb)
+        frontier = nxt
+    return out
+
+
+def returned_exprs(body):
+    """Value expressions a function returns normally: the tail and every `return e` that is not an error exit, with Ok(..) /
+    Some(..) wrappers removed.  None if there is no tail."""
+    root = body["body"]
+    outs = []
+    t = H.peel(root, refs=False)
+    if t.get("k") == "block":
+        if "tail" not in t:
+            return None
+        t = t["tail"]
+    outs.append(t)
+    for n in H.walk(root, into_closures=False):
+        if n.get("k") == "ret" and "e" in n and not H.is_err_exit(n):
+            outs.append(n["e"])
+    res = []
+    for e in outs:
+        e = H.peel(e)
+        c = H.ctor_of(e)
+        if c and c[1] in ("Ok", "Some") and e.get("k") == "call" and e.get("args"):
+            e = H.peel(e["args"][0])
+        res.append(e)
+    return res
+
+
+def built_where(q, body, e, depth=0):
+    """Follow a value (a path handed to File::create) back to the local it is built in, through `let` aliases, `?` and calls of
+    crate functions that return it: (body that owns the local, local id, [(call node, caller body)] followed) or None."""
+    if depth > 6:
+        return None
+    root = body["body"]
+    e = H.peel(e, tries=True)
+    loc = H.local_of(e)
+    if loc is None:
+        return None
+    init = H.let_init_of(root, loc[0])
+    if init is None:
+        return (body, loc[0], [])
+    i = H.peel(init, tries=True)
+    # conversions that keep the path
+    while i.get("k") == "mcall" and i["name"] in PATH_CONV and not i["args"]:
+        i = H.peel(i["recv"], tries=True)
+    if H.local_of(i) is not None:
+        return built_where(q, body, i, depth + 1)
+    if i.get("k") in ("call", "mcall"):
+        c = i.get("callee") or {}
+        cb = q.by_key.get(c.get("inst_key") or c.get("key")) or q.by_key.get(c.get("key"))
+        if cb is not None:
+            rets = returned_exprs(cb)
+            if rets and len(rets) == 1:
+                r = built_where(q, cb, rets[0], depth + 1)
+                if r is not None:
+                    return (r[0], r[1], r[2] + [(i, body)])
+            return None
+    return (body, loc[0], [])
+
+
+def call_args_positional(call):
+    """Arguments of a call in parameter order (receiver first for a method call)."""
+    return H.call_args(call)
